@@ -14,6 +14,7 @@ def run(facts, tier):
         ("theta reset", theta_rules.builder_reset, 2, "reset() restores the starting theta (exactness below k after reuse)"),
         ("cpc union folds", cpc_rules.union_rules, 3, "every row of the union's bit matrix survives a reduction of k: reduce_k folds all old rows into a fresh zeroed matrix through the row mask (an estimate computed from a matrix that lost rows is far outside its bounds)"),
         ("cpc window invariant", cpc_rules.window_invariants, 1, "no coupon is dropped by a first-interesting-column beyond the window (estimates are functions of the coupon count)"),
+        ("hll merge loops", H.merge_loops, 6, "an HLL union folds every register of the source (loop extent from the source's size, no conditional skip): the union estimate is not low by a dropped part of a larger source"),
         ("union refresh", H.union_refresh, 6, "bounds of an HLL union are computed on refreshed state"),
     ):
         o = f(facts)
